@@ -9,6 +9,7 @@ import (
 	"go/types"
 	"os"
 	"runtime/debug"
+	"runtime/pprof"
 	"sort"
 	"strings"
 	"time"
@@ -72,7 +73,7 @@ func main() {
 		dir       = flag.String("dir", "/verif/harness", "harness module directory")
 		overlay   = flag.String("overlay", "", "overlay JSON ({\"Replace\":{virtual:real}})")
 		out       = flag.String("out", "", "result JSON path (default stdout)")
-		solverBin = flag.String("solver", "z3", "solver binary")
+		solverBin = flag.String("solver", "z3-new", "solver binary")
 		timeoutMs = flag.Int("timeout-ms", 20000, "per-query timeout")
 		unwind    = flag.Int("unwind", 64, "per-frame visits of a symbolic branch")
 		allocLim  = flag.Uint64("alloc-limit", 0, "make([]byte) size treated as an allocation outcome (0 = off)")
@@ -92,7 +93,12 @@ func main() {
 	flag.Var(&pkgs, "pkg", "package pattern to load (repeatable)")
 	flag.Var(&harnesses, "harness", "pkgpath.Func entry (repeatable)")
 	flag.Var(&paramFl, "param", "harness bound parameter name=int (repeatable)")
+	cpuprof := flag.String("cpuprofile", "", "write cpu profile")
 	flag.Parse()
+	if *cpuprof != "" {
+		f, _ := os.Create(*cpuprof)
+		pprof.StartCPUProfile(f)
+	}
 	debug.SetGCPercent(400)
 	for _, p := range paramFl {
 		kv := strings.SplitN(p, "=", 2)
@@ -248,6 +254,9 @@ func main() {
 		os.WriteFile(*out, b, 0o644)
 	} else {
 		os.Stdout.Write(b)
+	}
+	if *cpuprof != "" {
+		pprof.StopCPUProfile()
 	}
 	os.Exit(exit)
 }
@@ -409,7 +418,7 @@ func runHarness(prog *ssa.Program, buildPkg func(*ssa.Package), fn *ssa.Function
 	}
 	res := HarnessResult{Harness: name, Paths: e.paths, OkPaths: e.okPaths, Infeasible: e.infeasiblePaths, Decisions: e.decisionsTotal,
 		Queries: solver.queries, QSat: solver.nSat, QUnsat: solver.nUnsat, QUnknown: solver.nUnknown,
-		SolverTimeS: solver.solveTime.Seconds(), WallS: time.Since(t0).Seconds(), Steps: in.steps,
+		SolverTimeS: solver.solveTime.Seconds() + solver.syncTime.Seconds(), WallS: time.Since(t0).Seconds(), Steps: in.steps,
 		Violations: e.violations, Inconclusive: e.inconclusive, Covers: e.covers, Traces: e.traces, Samples: e.samples,
 		Functions: sortedKeys(e.funcsExecuted), Intrinsics: sortedKeys(e.intrinsicsHit), Stubs: sortedKeys(e.stubsHit),
 		Assumptions: sortedKeys(e.assumptions), Summarised: sortedKeys(e.summarised), Exhaustive: exhaustive && len(e.inconclusive) == 0, Unwind: e.unwind, Terms: len(termList)}
